@@ -461,3 +461,15 @@ Definition named_descrb (d : descr) : bool := forallb (fun t => negb (String.eqb
 (* the typeDescriptions have distinct names after trimming (the reader keeps them in a dict: the model reads the first
    one of a name, the code the last one with the features of both; descriptors with a repeated name are outside the model) *)
 Definition uniq_descrb (d : descr) : bool := nodupb (map t_name (prep d)).
+(* well-formedness WITHOUT the fuel of the supertype walk: where the walk of noclash1 runs out of fuel nothing is asked.
+   (On a supertype cycle no order satisfies order_okb; DescrProofs3.fuel_from_order: wf_descr_laxb + order_okb -> wf_descrb.) *)
+Definition noclash1_lax (fuel : nat) (st : list stype) (t : stype) : bool :=
+  nodupb (map sf_name (st_feats t)) &&
+  match all_feats fuel st (st_super t) with
+  | None => true
+  | Some inh => forallb (fun f => match find_sf (sf_name f) inh with None => true | Some _ => false end) (st_feats t)
+  end.
+Definition noclash_laxb (st : list stype) : bool := forallb (noclash1_lax (S (List.length st)) st) st.
+Definition wf_descr_laxb (d : descr) : bool :=
+  let d2 := prep d in
+  nodupb (map t_name d2) && forallb (wf_tdeclb d2) d2 && noclash_laxb (map stype_of_decl (user_decls d2)).
